@@ -264,6 +264,10 @@ func (w *Worker) RunPath(name string, item WorkItem, concrete map[string]uint64)
 			msg += " at " + w.prog.Fset.Position(token.Pos(n)).String()
 		}
 	}
+	if st == "budget" && ps.budgetFails != "" {
+		ps.res.Violations = append(ps.res.Violations, ps.mkViolation(ps.budgetFails, "step budget exhausted: the evaluation did not return", "", ps.model))
+		st = "violation"
+	}
 	if st == "budget" && ps.budgetOK {
 		st = "ok"
 		res.Reached["step-budget-exhausted(accepted)"] = true
